@@ -6,6 +6,7 @@
 package simnet
 
 import (
+	"strings"
 	"errors"
 	"fmt"
 	"net"
@@ -102,6 +103,7 @@ type Net struct {
 	Sinks      []*Sink
 	Ledger     []Event
 	Order      []OrderEv // global order of sends and reads (clock-independent)
+	NoPortCheck bool
 	Calls      []Call
 	counts     map[string]int
 	// SACK: real listeners whose accepted connections trigger a synthesized SYN-ACK
@@ -174,6 +176,32 @@ type Sink struct {
 	Closes int
 	UseAfterClose int
 	Writes int
+	// PortNotHeld: the first probes whose transport source port was not owned by any socket of this network namespace when
+	// they were sent (the port is the run's identifier on the wire and must stay reserved while the run is live); "proto:port"
+	PortNotHeld []string
+}
+
+// portHeld looks the local port up in the kernel's socket tables of the current network namespace.
+func portHeld(proto uint8, port uint16) bool {
+	files := []string{"/proc/net/udp", "/proc/net/udp6"}
+	if proto == refcodec.ProtoTCP {
+		files = []string{"/proc/net/tcp", "/proc/net/tcp6"}
+	}
+	needle := fmt.Sprintf(":%04X ", port)
+	for _, f := range files {
+		b, err := os.ReadFile(f)
+		if err != nil {
+			return true // cannot tell: never alarm
+		}
+		for _, line := range strings.Split(string(b), "\n")[1:] {
+			// "  sl  local_address rem_address ...": the local address is the second field
+			fs := strings.Fields(line)
+			if len(fs) > 2 && strings.HasSuffix(fs[1]+" ", needle) {
+				return true
+			}
+		}
+	}
+	return false
 }
 
 func (n *Net) newSink(addr netip.Addr) (packets.Sink, error) {
@@ -205,6 +233,11 @@ func (s *Sink) WriteTo(buf []byte, addr netip.AddrPort) error {
 	ev := Event{T: vsched.Now(), Dir: "tx", Raw: raw, P: p, Sink: s.ID, Thread: vsched.CurrentThread(), Meta: Meta{ToTTL: -1, Flow: s.ID}}
 	n.Ledger = append(n.Ledger, ev)
 	n.Order = append(n.Order, OrderEv{"tx", s.ID, s.ID})
+	if err == nil && (p.Proto == refcodec.ProtoUDP || p.Proto == refcodec.ProtoTCP) && (s.Writes == 1 || s.Writes%16 == 0) && !n.NoPortCheck {
+		if !portHeld(p.Proto, p.SrcPort) && len(s.PortNotHeld) < 4 {
+			s.PortNotHeld = append(s.PortNotHeld, fmt.Sprintf("%d:%d", p.Proto, p.SrcPort))
+		}
+	}
 	if err != nil {
 		return nil // a real raw socket would reject some of these; the oracle judges the ledger
 	}
